@@ -27,11 +27,11 @@ CLAIMED = {
             "Trusted: reference metric, tolerances of DESIGN.md section 4.",
             "5/C05", "oxv"),
     "C09": ("exhaustive lattice of special states + proptest-generated triples vs. independent reference metric",
-            "Generated-input search: every ordered triple over a lattice of failure-prone states (exhaustive in the thorough tier) plus 2e5 (quick) / 5e6 (thorough) random triples across all six kinds, layouts and weights, against the metric axioms, representation invariance, the diameter bound and an independently written reference distance. Exploration, not proof: it shows the axioms hold on everything generated.",
+            "Generated-input search: every ordered triple over a lattice of failure-prone states (exhaustive in the thorough tier) plus 3e6 (quick) / 1.2e7 (thorough) random triples across all six kinds, layouts and weights, against the metric axioms, representation invariance, the diameter bound and an independently written reference distance. Exploration, not proof: it shows the axioms hold on everything generated.",
             "Trusted: the reference formulas in harness/src/flat.rs (scaled two-pass norm, atan2-based angular distances), libm, and the stated tolerances (DESIGN.md section 4). RV magnitudes above 1e150 are outside the stated domain.",
             "5/C09", "oxv"),
     "C10": ("exhaustive lattice of pairs x t + proptest-generated pairs vs. constant-speed law, reversal, canonical form and a reference interpolation",
-            "All ordered pairs over the special-value lattices x 7 values of t, plus 3e5 / 8e6 random (pair, t) cases incl. a dense sweep of the quaternion dot through the 0.9995 LERP/SLERP switch: endpoint laws, d(a,m) = t d and d(m,b) = (1-t) d by the reference metric and the space's own, canonical output, reversal symmetry, differential against an atan2-based reference interpolation, independence from the initial contents of the output state.",
+            "All ordered pairs over the special-value lattices x 7 values of t, plus 3e6 / 1.6e7 random (pair, t) cases incl. a dense sweep of the quaternion dot through the 0.9995 LERP/SLERP switch: endpoint laws, d(a,m) = t d and d(m,b) = (1-t) d by the reference metric and the space's own, canonical output, reversal symmetry, differential against an atan2-based reference interpolation, independence from the initial contents of the output state.",
             "Trusted: reference metric/interpolation (harness/src/gen.rs, flat.rs); ambiguous (antipodal) pairs accept either shortest path.",
             "5/C10", "oxv"),
     "C11": ("proptest-generated bound settings x wild states x sampler seeds vs. reference membership, canonical-form and idempotence oracles",
@@ -65,8 +65,8 @@ CLAIMED.update({
             "Per generated setting (96 quick / 360 thorough; boxes of 1-20 dimensions, SO2 intervals incl. requests outside [-pi, pi], cones from 0.12 rad, compounds, SE2/SE3): Kolmogorov-Smirnov of every coordinate, angle, rotation angle (theta - sin theta law conditioned on the cone), axis z-component and azimuth against the exact CDF, sign symmetry of the quaternion, 8x8 chi-square for independence of every pair of marginals.",
             "Statistical: cannot see biases below about 1%; asymptotic tail formulas; cones of radius < 0.12 rad not sampled (rejection sampling cost).",
             "5/C14", "oxv"),
-    "C15": ("bounded-exhaustive explicit-state exploration of the real planners under a scripted sampler (all sample sequences to depth 4/6 over a 6-7 state alphabet, de-duplicated by tree snapshot) + stepwise random runs + chunked/timed runs; tree invariant after every iteration",
-            "Every reachable tree (up to the stated depth over the stated alphabet and worlds; about 2e5 sequences in the quick tier) and every intermediate tree of several hundred random stepwise runs is checked: indices, single root, acyclic, root identity, node validity, every new or changed edge motion-checked (oracles A and B) and within the extension limit, RRT* cost >= branch length, returned path = parent walk. A hang of path extraction is reported as a violation by the watchdog.",
+    "C15": ("bounded-exhaustive explicit-state exploration of the real planners under a scripted sampler (all sample sequences to depth 5/6 over a 6-7 state alphabet, de-duplicated by tree snapshot) + stepwise random runs + chunked/timed runs; tree invariant after every iteration",
+            "Every reachable tree (up to the stated depth over the stated alphabet and worlds; about 1.5e6 sequences in the quick tier) and every intermediate tree of 5000 (quick) random stepwise runs of 30-150 iterations is checked: indices, single root, acyclic, root identity, node validity, every new or changed edge motion-checked (oracles A and B) and within the extension limit, RRT* cost >= branch length, returned path = parent walk. A hang of path extraction is reported as a violation by the watchdog.",
             "Exhaustive only over the stated alphabet / depth / worlds. Trusted: snapshot accessors, scripted sampler wrapper.",
             "5/C15", "oxv"),
     "C16": ("same exploration; per-iteration transition oracle from a reference model of one RRT / RRT-Connect / RRT* iteration; goal-bias frequency by Hoeffding bound on long seeded runs",
@@ -74,7 +74,7 @@ CLAIMED.update({
             "Trusted: reference model in harness/src/props/trees.rs; the planner's own metric (decided by C09) is used to determine 'nearest'.",
             "5/C16", "oxv"),
     "C17": ("same exploration restricted to RRT* + stepwise random runs: bit-exact cost bookkeeping, arg-min parent modulo rejected motions, rewiring exactly when strictly cheaper; differential RRT vs RRT* on the same seed",
-            "Per accepted RRT* iteration: cost(new) = cost(parent) + edge bit-exactly; no candidate cheaper than the chosen parent unless a motion query on that segment was rejected; neighbours strictly cheaper through the new node (and not blocked) are re-parented with the exact cost, everything else bit-identical, recorded costs never increase. 2000 (quick) RRT-vs-RRT* pairs: same outcome, same end state, RRT* not longer.",
+            "Per accepted RRT* iteration: cost(new) = cost(parent) + edge bit-exactly; no candidate cheaper than the chosen parent unless a motion query on that segment was rejected; neighbours strictly cheaper through the new node (and not blocked) are re-parented with the exact cost, everything else bit-identical, recorded costs never increase. 10 000 (quick) RRT-vs-RRT* pairs: same outcome, same end state, RRT* not longer.",
             "Trusted: reference model in harness/src/props/trees.rs. Where a rejected query from an overlapping collinear segment lies on the rewiring segment either outcome is accepted (stated in DESIGN.md).",
             "5/C17", "oxv"),
     "C18": ("bounded-exhaustive scripted sample sequences (length <= 4/5 over the alphabet, all worlds, three radii) + random roadmaps: construction replayed against the ordered validity log, reference multi-source BFS for every query",
